@@ -11,6 +11,8 @@
 From Coq Require Import List NArith Bool.
 From TG.Model Require Import CoreAst Scope BangOps Indexer.
 From TG.Model Require Import ScopeSpec.
+From TG.Model Require ScopeSpecT.
+From TG.Proofs Require ScopeSimT ScopeSimWsT.
 From TG.Proofs Require Import DiagLocal ScopeSim ScopeSimRec ScopeSimWs IndexerTotal.
 Import ListNotations.
 Open Scope N_scope.
@@ -258,3 +260,42 @@ Check C13_visited_all_workspace_partial : forall w u,
     frag_ws w = true -> well_scoped w = true ->
     In u (spec_uses w) -> In u (s_uses (index_ws w)).
 Print Assumptions C13_visited_all_workspace_partial.
+
+(** ... and over the TYPED resolver ScopeSpecT (field accesses `v.f` included; props/C05.v
+    C05_resolution_field_access_partial): on a workspace of that fragment all of whose uses - field accesses
+    included - the typed resolver resolves, the indexer emits no "class / multiclass / symbol not found" and no
+    "cannot access field" diagnostic ([ScopeSimT.nf_kind] covers these four kinds), and it visits every use the
+    resolver lists (so a `cannot access field` or a not-found on such a
+    site cannot be masked by the site not being indexed). *)
+Theorem C13_sound_no_not_found_field_access_partial : forall w,
+    ScopeSpecT.frag_ws w = true -> ScopeSpecT.well_scoped w = true ->
+    forall d, In d (s_diags (index_ws w)) -> ScopeSimT.nf_kind (snd d) = false.
+Proof.
+  intros w Hf HR d Hin. pose proof (index_ws_total w) as Hb.
+  destruct (ScopeSimWsT.workspace_resolution w Hf HR Hb) as [_ Hnf].
+  destruct (ScopeSimT.nf_kind (snd d)) eqn:E; [|reflexivity].
+  assert (In d (ScopeSimT.nf (index_ws w))) by (unfold ScopeSimT.nf; apply filter_In; split; assumption).
+  rewrite Hnf in H. destruct H.
+Qed.
+Check C13_sound_no_not_found_field_access_partial : forall w,
+    ScopeSpecT.frag_ws w = true -> ScopeSpecT.well_scoped w = true ->
+    forall d, In d (s_diags (index_ws w)) -> ScopeSimT.nf_kind (snd d) = false.
+Print Assumptions C13_sound_no_not_found_field_access_partial.
+
+Theorem C13_visited_all_field_access_partial : forall w u,
+    ScopeSpecT.frag_ws w = true -> ScopeSpecT.well_scoped w = true ->
+    In u (ScopeSpecT.spec_uses w) -> In u (s_uses (index_ws w)).
+Proof.
+  intros w u Hf HR Hin. pose proof (index_ws_total w) as Hb.
+  destruct (ScopeSimWsT.workspace_resolution w Hf HR Hb) as [Hu _].
+  rewrite <- Hu in Hin. rewrite <- in_rev in Hin. exact Hin.
+Qed.
+Check C13_visited_all_field_access_partial : forall w u,
+    ScopeSpecT.frag_ws w = true -> ScopeSpecT.well_scoped w = true ->
+    In u (ScopeSpecT.spec_uses w) -> In u (s_uses (index_ws w)).
+Print Assumptions C13_visited_all_field_access_partial.
+Example C13_field_access_kinds :
+  ScopeSimT.nf_kind DCannotAccessField = true /\ ScopeSimT.nf_kind DSymbolNotFound = true /\
+  ScopeSimT.nf_kind DClassNotFound = true /\ ScopeSimT.nf_kind DMulticlassNotFound = true /\
+  ScopeSimT.nf_kind DFieldIncompat = false.
+Proof. repeat split. Qed.
